@@ -20,6 +20,12 @@ Theorem C06_gate_set S arg inst item c : Version item = Some c -> is_prerelease 
   set_contains S arg inst item = Ans true -> set_effective S arg = true.
 Proof. exact (set_gate S arg inst item c). Qed.
 Print Assumptions C06_gate_set.
+(* the three layers for a set built from a text *)
+Theorem C06_effective_of_text_set s p S arg : SpecifierSet s p = Some S ->
+  set_effective S arg =
+  match arg with Some b => b | None => match p with Some b => b | None => existsb (fun m => auto_pre (m_sp m)) (ms S) end end.
+Proof. exact (text_set_effective s p S arg). Qed.
+Print Assumptions C06_effective_of_text_set.
 (* a specifier enables pre-releases by itself only when its operator is not != and its version text is a pre-release *)
 Theorem C06_auto_names_prerelease sp : auto_pre sp = true ->
   sp_op sp <> ONe /\ exists v, is_prerelease v = true /\
